@@ -176,9 +176,8 @@ def run(ctx):
             ok = _dominated_by_call(fn, r, g, ESTABLISH_PRIMITIVE)
             if ok:
                 ctx.ob("C10.b", fn, "%s.restricted" % g, True, "established in the same function before the read", node=r)
-            else:
-                ctx.ob("C10.b", fn, "%s.restricted" % g, None,
-                       "reads the sub-grid of a grid received as an argument (caller's responsibility)", node=r)
+            # else: the sub-grid of a grid received as an argument is the caller's responsibility (define_restr is called
+            # by set-ups right after they established the cache): not an obligation of this function
 
     # ---------------------------------------------------------------- C10.c
     asset = p.cls("Asset")
